@@ -176,6 +176,13 @@ func (env *Env) eval(e ast.Expr) Val {
 	case *ast.SliceExpr:
 		return env.sliceExpr(x)
 	case *ast.UnaryExpr:
+		if x.Op == token.AND {
+			if sel, ok := x.X.(*ast.SelectorExpr); ok {
+				base := env.eval(sel.X)
+				return env.selectFieldAddr(base, sel.Sel.Name)
+			}
+			return env.fail("& applies to field selectors only")
+		}
 		if x.Op == token.NOT {
 			env.pol = -env.pol
 		}
@@ -320,7 +327,11 @@ func (env *Env) selectField(base Val, name string) Val {
 				defer func() { tr.st, tr.rc = saved, savedRC }()
 				fv := st.Field(i)
 				if isObjType(fv.Type()) {
-					// pointer to the embedded object
+					if _, isStruct := under(fv.Type()).(*types.Struct); isStruct {
+						// embedded struct: its value (use &x.f for the address)
+						return tr.loadObj(env.cur(), fv.Type(), tr.g.fr(tr.e, p.Elem(), name, base.C[0]))
+					}
+					// embedded array: pointer to it (indexable)
 					return Val{T: types.NewPointer(fv.Type()), C: []Term{tr.g.fr(tr.e, p.Elem(), name, base.C[0])}}
 				}
 				return tr.readField(env.cur(), p.Elem(), fv, base.C[0])
@@ -695,6 +706,37 @@ func (env *Env) callExpr(x *ast.CallExpr) Val {
 		mk := mapKeys(mt)
 		h := env.cur().get(tr.e, mk.has, mk.hasSort)
 		return Val{T: tBool, C: []Term{and(not(eq(m.C[0], intT(0))), sel(sel(h, m.C[0]), k.C[0]))}}
+	case "visited":
+		// visited(n, k): the n-th range-over-map loop of this function has already produced key k
+		nlit, ok := x.Args[0].(*ast.BasicLit)
+		if !ok {
+			return env.fail("visited needs a literal loop ordinal")
+		}
+		k := env.eval(x.Args[1])
+		key := fmt.Sprintf("L$iter$%d$%s", tr.g.topTr.id, nlit.Value)
+		vis := env.cur().get(tr.e, key, arrSort(k.C[0].Sort, SBool))
+		return Val{T: tBool, C: []Term{sel(vis, k.C[0])}}
+	case "held":
+		// held(&x.mu): the mutex is (write-)locked
+		v := env.eval(x.Args[0])
+		return env.lockState(v, "w")
+	case "rheld":
+		// rheld(&x.mu): a RWMutex is locked for reading or writing
+		v := env.eval(x.Args[0])
+		return env.lockState(v, "r")
+	case "rcount":
+		v := env.eval(x.Args[0])
+		if pt, ok := under(v.T).(*types.Pointer); ok && typeKey(pt.Elem()) == "sync.RWMutex" && len(v.C) == 1 {
+			hr := env.cur().get(tr.e, "lock$sync.RWMutex.r", arrSort(SInt, SInt))
+			return Val{T: tInt, C: []Term{sel(hr, v.C[0])}}
+		}
+		return env.fail("rcount(): not a pointer to a RWMutex")
+	case "boxs":
+		// boxs(s): the string s as an interface value (as passed to variadic ...any parameters)
+		v := env.eval(x.Args[0])
+		id := tr.g.typeID(types.Typ[types.String])
+		f := tr.e.declareFun(fmt.Sprintf("box$%d", id), []Sort{SInt}, SInt)
+		return Val{T: types.NewInterfaceType(nil, nil), C: []Term{{fmt.Sprintf("(%s %s)", f, v.C[0].S), SInt}}}
 	case "dyntype":
 		v := env.eval(x.Args[0])
 		return Val{T: tInt, C: []Term{tr.dynType(v.C[0])}}
@@ -1118,4 +1160,56 @@ func indexTermsOf(term string) []string {
 		walk(n)
 	}
 	return out
+}
+
+// lockState reads the ghost lock state of a sync.Mutex / sync.RWMutex object (pointer value).
+func (env *Env) lockState(v Val, mode string) Val {
+	tr := env.tr
+	pt, ok := under(v.T).(*types.Pointer)
+	if !ok || len(v.C) != 1 {
+		return env.fail("held(): not a pointer to a mutex")
+	}
+	return Val{T: tBool, C: []Term{tr.g.lockHeld(tr.e, env.cur(), pt.Elem(), v.C[0], mode)}}
+}
+
+// lockHeld: ghost encoding of lock state in the real fields of sync.Mutex / sync.RWMutex (their values are otherwise opaque):
+// Mutex.state == 1 means locked; RWMutex.w.state == 1 write-locked; RWMutex.readerCount > 0 read-locked.
+func (g *Gen) lockHeld(e *Emitter, st *State, mt types.Type, ref Term, mode string) Term {
+	name := typeKey(mt)
+	switch name {
+	case "sync.Mutex":
+		// go1.26: Mutex wraps isync.Mutex in field mu; older: state/sema
+		h := st.get(e, "lock$sync.Mutex", arrSort(SInt, SInt))
+		return eq(sel(h, ref), intT(1))
+	case "sync.RWMutex":
+		hw := st.get(e, "lock$sync.RWMutex.w", arrSort(SInt, SInt))
+		hr := st.get(e, "lock$sync.RWMutex.r", arrSort(SInt, SInt))
+		if mode == "r" {
+			return or(eq(sel(hw, ref), intT(1)), gt(sel(hr, ref), intT(0)))
+		}
+		return eq(sel(hw, ref), intT(1))
+	}
+	return e.fresh("held", SBool)
+}
+
+// selectFieldAddr evaluates &base.name: a pointer to an embedded struct/array field object.
+func (env *Env) selectFieldAddr(base Val, name string) Val {
+	tr := env.tr
+	p, ok := under(base.T).(*types.Pointer)
+	if !ok || len(base.C) != 1 {
+		return env.fail("&x.%s: x is not a tracked pointer", name)
+	}
+	st, ok := under(p.Elem()).(*types.Struct)
+	if !ok {
+		return env.fail("&x.%s: x does not point to a struct", name)
+	}
+	for i := 0; i < st.NumFields(); i++ {
+		if st.Field(i).Name() == name {
+			if !isObjType(st.Field(i).Type()) {
+				return env.fail("&x.%s: only struct/array fields have addresses in specs", name)
+			}
+			return Val{T: types.NewPointer(st.Field(i).Type()), C: []Term{tr.g.fr(tr.e, p.Elem(), name, base.C[0])}}
+		}
+	}
+	return env.fail("&x.%s: no such field", name)
 }
